@@ -40,24 +40,29 @@ HostLabel(l) == \A i \in 1..Len(l) : HostByte(l[i])
 
 BadName == [ok |-> FALSE, labels |-> <<>>, next |-> 0, jumps |-> 0, wf |-> FALSE, size |-> 0]
 
-RECURSIVE DecName(_, _, _)
-DecName(d, o, fuel) ==
+\* `seen` = offsets of the pointers already followed for this name.  A pointer met a second time means the name never
+\* ends (a loop, whether or not ordinary labels lie on it): with fuel alone such a name is rejected after Len(d)
+\* rounds, with `seen` after one - the accepted names are the same (a name that ends follows each pointer once, and
+\* there are fewer than Len(d) pointers), only the evaluation is shorter.
+RECURSIVE DecN(_, _, _, _)
+DecN(d, o, fuel, seen) ==
   IF ~Has(d, o, 1) THEN BadName
   ELSE LET len == B(d, o) IN
     IF len = 0 THEN [ok |-> TRUE, labels |-> <<>>, next |-> o + 1, jumps |-> 0, wf |-> TRUE, size |-> 1]
     ELSE IF len >= 192 THEN
-      IF ~Has(d, o, 2) \/ fuel = 0 THEN BadName
+      IF ~Has(d, o, 2) \/ fuel = 0 \/ o \in seen THEN BadName
       ELSE LET tgt == (len - 192) * 256 + B(d, o + 1)
-               r == DecName(d, tgt, fuel - 1)
+               r == DecN(d, tgt, fuel - 1, seen \cup {o})
            IN IF ~r.ok THEN BadName
               ELSE [ok |-> TRUE, labels |-> r.labels, next |-> o + 2, jumps |-> r.jumps + 1,
                     wf |-> r.wf /\ tgt < o /\ tgt >= 12 /\ r.labels # <<>>, size |-> r.size]
     ELSE IF ~Has(d, o + 1, len) THEN BadName
-    ELSE LET r == DecName(d, o + 1 + len, fuel)
+    ELSE LET r == DecN(d, o + 1 + len, fuel, seen)
              lab == Bytes(d, o + 1, len)
          IN IF ~r.ok THEN BadName
             ELSE [ok |-> TRUE, labels |-> <<lab>> \o r.labels, next |-> r.next, jumps |-> r.jumps,
                   wf |-> r.wf /\ len <= 63 /\ HostLabel(lab), size |-> r.size + len + 1]
+DecName(d, o, fuel) == DecN(d, o, fuel, {})
 
 Name(d, o) == DecName(d, o, Len(d))
 WfName(n) == n.ok /\ n.wf /\ n.jumps <= WfMaxJumps /\ n.size <= 255
